@@ -81,6 +81,21 @@ fn main() {
                 eprintln!("bad replay file: {}", e);
                 std::process::exit(2)
             });
+            // a case that only the plain release build showed is replayed by that build
+            if v["case"]["harness_profile"].as_str() == Some("plainrelease") && cfg!(debug_assertions) {
+                let sibling = std::env::current_exe().ok().and_then(|me| me.parent().and_then(|p| p.parent()).map(|p| p.join("plainrelease").join("avra-verif")));
+                let file = v["case"]["leg_replay_file"].as_str().unwrap_or("").to_string();
+                match sibling {
+                    Some(s) if s.exists() => {
+                        let st = std::process::Command::new(s).args(["replay", &file]).env("VERIF_PLAIN_LEG", "1").status();
+                        std::process::exit(st.ok().and_then(|s| s.code()).unwrap_or(2));
+                    }
+                    _ => {
+                        eprintln!("the plain release build of the harness is missing (run through ./check)");
+                        std::process::exit(2);
+                    }
+                }
+            }
             let prop = v["property"].as_str().unwrap_or("").to_string();
             let mut ctx = Ctx::new(&prop, Tier::Quick, v["seed"].as_u64().unwrap_or(1));
             ctx.replay_mode = true;
